@@ -20,21 +20,29 @@ from kopf._cogs.structs import credentials, ephemera
 from kopf._core.engines import activities, daemons
 from kopf._core.intents import registries
 from kopf._core.reactor import running
+from kopf._core.reactor import orchestration as _orch, observation as _obs, queueing as _queueing
 
 logging.disable(logging.CRITICAL)
 from kopf._core.engines import peering as _peering
 from vkopf.props import c13 as _c13
 ENCODED = [_peering.keepalive, _peering.touch, running.run_tasks, running.startup_cleanup_activities, running.stop_flag_checker, aiotasks.guard, aiotasks.stop,
-           aiotasks.wait, aiotasks.reraise, activities.run_activity, daemons.daemon_killer, daemons.stop_daemon]
+           aiotasks.wait, aiotasks.reraise, activities.run_activity, daemons.daemon_killer, daemons.stop_daemon,
+           running.spawn_tasks, _orch.orchestrator, _orch.spawn_missing_watchers, _obs.resource_observer, _queueing.watcher]
 META = {
     'bounds': 'two recording root tasks + the real stop-flag checker, startup/cleanup task, daemon killer and a core task; trigger in '
               '{root A raises, root B returns, stop flag set, external cancellation of run_tasks, nothing (startup failure only)} at a '
               'symbolic instant >= 0 (before, during or after the startup handler of symbolic duration); startup outcome ok/permanent '
               'failure; cleanup handler duration symbolic; one daemon that obeys the stop flag after a symbolic delay; a root task that '
-              'takes a symbolic time to honour its cancellation.',
-    'outside': 'the real spawn_tasks wiring of all 13 root tasks and OS signals (threads/signals); the whole kopf.operator() over HTTP; '
-               'the 5 s hung-task grace is exercised with one straggler task',
-    'stubs': ['root tasks -> recording coroutines', 'api.patch -> FakeServer for the daemon spawn'],
+              'takes a symbolic time to honour its cancellation. H2 (h_operator): the REAL spawn_tasks + run_tasks (all root tasks as kopf '
+              'wires them: stop-flag checker, startup/cleanup, daemon killer, credentials retriever, poster, admission managers, observers, '
+              'orchestrator -> watchers -> workers -> processing -> patching) over the real client stack down to a fake aiohttp session; one '
+              'served object with a create handler and a daemon; stop flag / cancellation at a symbolic instant during startup (startup '
+              'duration symbolic), during the 3 s creation handler, or in steady state (grid 0/1/3/10 s after it); startup failure; the watch '
+              'stream of the served kind answering 500 until the retries are exhausted; peering record written and withdrawn (thorough).',
+    'outside': 'OS signals (the signal-handler branch is switched off: a virtual loop has none); liveness endpoint; real sockets; '
+               'an unbounded stop instant in steady state (did not exhaust in 15 CPU-minutes); the 5 s hung-task grace is exercised with one straggler task',
+    'stubs': ['root tasks -> recording coroutines (H1)', 'api.patch -> FakeServer for the daemon spawn (H1)',
+              'aiohttp session -> vkopf.fakehttp.FakeSession serving discovery, list, watch (ordered change log), PATCH (H2)'],
     'assumptions': [],
 }
 TRIGGERS = ['a_raises', 'b_returns', 'stop_flag', 'external_cancel', 'none']
